@@ -137,7 +137,7 @@ def _wrap(rng, c, r, stats):
         opts += [("str", f"str({c})", "str"), ("abs", f"abs({c} - 9)", "int"), ("abs", f"abs({c})", "int"),
                  ("min", f"min({c}, n2)", "int"), ("max", f"max(n4, {c})", "int"), ("min", f"min(n1, {c})", "int")]
     if r == "bool":
-        opts += [("abs", f"abs({c})", "int"), ("max", f"max({c}, 0)", "int")]
+        opts += [("abs", f"abs({c})", "int"), ("max", f"max({c}, 2)", "int")]       # max(True, 0) IS True in Python: text "True"
     if r in ("int", "float", "bool"):
         opts += [("bool", f"bool({c})", "bool"), ("int", f"int({c})", "int"), ("float", f"float({c})", "float")]
     if r == "str":
@@ -183,6 +183,11 @@ def builtin_program(rng, stats):
             kinds = ["float"]
         place = rng.choice(["top", "top", "top", "nested", "wrapper", "wrapper", "main", "tuple", "aug", "comp"])
         stats["builtin_sites_by_place"][place] = stats["builtin_sites_by_place"].get(place, 0) + 1
+        via = None
+        if hn != "tag" and rng.random() < 0.2:                     # the result passes through a second helper, itself only called there
+            via = f"g{j + 1}"
+            body += f"def {via}(p):\n    return p\n"
+            stats["builtin_site_through_two_helpers"] += 1
         for kx in kinds:
             stats["builtin_call_signatures"][kx] = stats["builtin_call_signatures"].get(kx, 0) + 1
             arg = {"float": rng.choice(["x1", "x2", "x3", "x4"]), "int": rng.choice(["n1", "n2", "n4", "2", "7"]), "bool": "b1"}[kx]
@@ -190,7 +195,7 @@ def builtin_program(rng, stats):
             nv += 1
             v = f"v{nv}"
             if place == "wrapper":
-                src, k = _site(rng, f"{f}(q)", r, stats)
+                src, k = _site(rng, f"{via}({f}(q))" if via else f"{f}(q)", r, stats)
                 src = src.replace("n1", "3").replace("n2", "12").replace("n4", "1")      # helper bodies read no globals
                 w = f"w{nv}"
                 if rng.random() < 0.5:
@@ -199,7 +204,7 @@ def builtin_program(rng, stats):
                     body += f"def {w}(q):\n    u{nv} = {src}\n    return u{nv}\n"
                 out.append(("top", f"{v} = {w}({arg})\nmon.write({v})\n"))
                 continue
-            src, k = _site(rng, f"{f}({arg})", r, stats)
+            src, k = _site(rng, f"{via}({f}({arg}))" if via else f"{f}({arg})", r, stats)
             if place == "tuple":
                 out.append(("top", f"{v}, t{nv} = {src}, 1\nmon.write({v})\n"))
             elif place == "aug" and k in ("int", "float"):
@@ -235,10 +240,18 @@ FIXED = [
     ("def ramp(p):\n    acc = p * 0.5\n    for i in range(2):\n        acc, prev = 1, acc + i\n        acc = prev + 0.5\n    return prev\nn1 = 5\nr1 = ramp(n1)\nmon.write(r1)\n", 0),
     # (B) the float signature only inside str / bool / abs / min / max / len, at column 0 and on a return
     ("x1 = 2.5\nx2 = 1.5\nn1 = 3\ndef h1(p):\n    return int(p * 2)\ndef h2(p):\n    return p - 1\ns = str(h1(x1))\nmon.write(s)\nb = bool(h2(x2))\nmon.write(b)\n", 0),
-    ("x1 = 2.5\nn1 = 3\nn2 = 12\ndef h1(p):\n    return int(p * 2)\ndef h2(p):\n    if p > 2:\n        return 3\n    return 1\ndef h3(p):\n    if p > 2:\n        return \"hi\"\n    return \"l\"\n"
-     "a = abs(h1(x1) - 9)\nmon.write(a)\nm = min(h2(x1), n2)\nmon.write(m)\nk = max(n1 - 2, h2(x1))\nmon.write(k)\nj = len(h3(x1))\nmon.write(j)\n", 0),
+    ("x1 = 2.5\nn1 = 3\nn2 = 12\ndef h1(p):\n    return int(p * 2)\ndef h2(p):\n    if p > 2:\n        return 3\n    return 1\ndef h3(p):\n    if p > 2:\n        return \"hi\"\n    return \"l\"\ndef h4(p):\n    if p > 2:\n        return 3\n    return 1\n"
+     "a = abs(h1(x1) - 9)\nmon.write(a)\nm = min(h2(x1), n2)\nmon.write(m)\nk = max(n1 - 2, h4(x1))\nmon.write(k)\nj = len(h3(x1))\nmon.write(j)\n", 0),
     ("x1 = 2.5\nn1 = 3\nb1 = True\ndef h1(p):\n    return int(p * 2)\ndef w1(q):\n    return str(h1(q))\ndef w2(q):\n    u = abs(h1(q))\n    return u + 1\n"
      "r1 = w1(x1)\nmon.write(r1)\nr2 = w1(n1)\nmon.write(r2)\nr3 = w2(x1)\nmon.write(r3)\nr4 = str(h1(b1))\nmon.write(r4)\n", 0),
+    # ... as the right-hand side of an augmented assignment, a tuple element, a comprehension element
+    ("x1 = 2.5\nn1 = 3\ndef h1(p):\n    return int(p * 2)\ndef h2(p):\n    if p > 2:\n        return 3\n    return 1\ndef h3(p):\n    return int(p * 2)\n"
+     "a = 1\na += abs(h1(x1) - 9)\nmon.write(a)\nb, c = max(h2(x1), 0), 1\nmon.write(b)\nL = [min(h3(x1), 9) for t in range(2)]\nmon.write(L[1])\n", 0),
+    # ... in the else branch of a conditional expression, under a unary minus, as the right operand of arithmetic, through two helpers
+    ("x1 = 2.5\nn1 = 3\ndef h1(p):\n    return int(p * 2)\ndef h2(p):\n    if p > 2:\n        return 3\n    return 1\ndef h3(p):\n    return int(p * 2)\n"
+     "def h4(p):\n    return p - 1\ndef g4(p):\n    return p\n"
+     "d = (0 if n1 > 5 else abs(h1(x1)))\nmon.write(d)\ne = (-abs(h2(x1)))\nmon.write(e)\nf = (n1 + max(h3(x1), 1))\nmon.write(f)\n"
+     "s = (\"x\" if n1 > 5 else str(h1(n1)))\nmon.write(s)\nt = bool(g4(h4(x1) - 1))\nmon.write(t)\n", 0),
     ("x1 = 2.5\nn1 = 3\ndef h1(p):\n    return int(p * 2)\ndef h2(p):\n    return p > 2\nv = 0\nwhile True:\n    v = max(h1(x1), v)\n    mon.write(v)\n    t = int(bool(h2(x1)))\n    mon.write(t)\n", 1),
 ]
 
@@ -246,7 +259,7 @@ FIXED = [
 def programs(rng, n, stats):
     stats.update({"tuple_by_place": {}, "tuple_retyped_kind": {}, "tuple_receivers_predeclared": 0, "tuple_programs": 0,
                   "builtin_wrappers": {}, "builtin_two_deep": 0, "builtin_inside_arithmetic": 0,
-                  "builtin_inside_conditional_expression": 0, "builtin_sites_by_place": {}, "builtin_call_signatures": {},
+                  "builtin_inside_conditional_expression": 0, "builtin_site_through_two_helpers": 0, "builtin_sites_by_place": {}, "builtin_call_signatures": {},
                   "builtin_programs": 0})
     out = list(FIXED)
     for i in range(n):
